@@ -52,10 +52,10 @@ type Config struct {
 
 // Action is one macro-step stimulus.
 type Action struct {
-	K    string `json:"k"`              // key | plain | status | sleep | grant | grant_all | eof | drain | src_mode | src_hold | src_release
+	K    string `json:"k"`              // key | plain | status | sleep | grant | grant_all | disarm | arm | grant_behind | eof | drain | src_mode | src_hold | src_release
 	B    []byte `json:"b,omitempty"`    // typed bytes / token
 	Ns   int64  `json:"ns,omitempty"`   // sleep
-	Site string `json:"site,omitempty"` // grant
+	Site string `json:"site,omitempty"` // grant, arm: the yield site; grant_behind: the site of the goroutine let go first ("timer")
 	Mode string `json:"mode,omitempty"` // src_mode: ok | err | empty; src_hold: "" (reads which give the payload are slow) | all (failing and empty ones too)
 }
 
@@ -149,6 +149,16 @@ type sim struct {
 	srcHeld    []chan struct{}
 	srcHeldCnt int64
 	suppressed []tok // shell output known to have been suppressed
+	// sites armed by "arm" actions in a run whose Config arms nothing: while such
+	// a window is open (something armed or parked) the mute model's clock stands
+	// still; "grant_behind" closes the window and brings the model up to date,
+	// any other way of closing it ends the judging of timing (noJudge)
+	heldPlainAt int64 // >= 0: when the one chunk of shell output was sent that sits at "plain-locked" in such a window
+	// soft: the chunk held in the window was handled (at last) well after it was
+	// sent (at softLo-pause): until the next shell output the end of the mute is
+	// only known to lie between softLo and last+pause
+	soft   bool
+	softLo int64
 }
 
 type tok struct {
@@ -259,7 +269,7 @@ func globalSetup() {
 // Run implements simkit.Engine.
 func (Engine) Run(t *testing.T, job *simkit.Job, rng *simkit.RNG, idx int64, c *simkit.Case) *simkit.Outcome {
 	globalSetup()
-	s := &sim{rng: rng, faults: map[string]int64{}, probes: map[string]int64{}, armed: map[string]bool{}, parkCount: map[string]int64{}, seen: map[string]*seenKey{}}
+	s := &sim{rng: rng, faults: map[string]int64{}, probes: map[string]int64{}, armed: map[string]bool{}, parkCount: map[string]int64{}, seen: map[string]*seenKey{}, heldPlainAt: -1}
 	if c != nil {
 		s.replay = true
 		if err := json.Unmarshal(c.Config, &s.cfg); err != nil {
@@ -423,6 +433,7 @@ func (s *sim) main() {
 	s.step++
 	s.stalled = false
 	if !s.invalid && s.harnessErr == "" && len(s.found) == 0 {
+		s.windowClosedAnyhow()
 		s.disarm()
 		s.srcRelease()
 		s.settle()
@@ -630,6 +641,35 @@ func (s *sim) heldSites() map[string]int {
 
 func lockedSite(site string) bool { return strings.HasSuffix(site, "-locked") }
 
+// windowOpen: is the simulator holding goroutines back (or ready to) at the
+// moment?  While it is, when things are handled is its doing and the mute
+// model's clock is not meaningful.
+func (s *sim) windowOpen() bool {
+	s.mu.Lock()
+	defer s.mu.Unlock()
+	if len(s.parks) > 0 {
+		return true
+	}
+	for _, on := range s.armed {
+		if on {
+			return true
+		}
+	}
+	return false
+}
+
+// windowClosedAnyhow: what was held back is about to be let go in a way that
+// does not tell the model when each thing is handled.
+func (s *sim) windowClosedAnyhow() {
+	if len(s.cfg.Arm) == 0 && s.windowOpen() {
+		if !s.noJudge {
+			s.probes["timing_no_longer_judged"]++
+		}
+		s.noJudge = true
+		s.heldPlainAt = -1
+	}
+}
+
 func (s *sim) next() (Action, bool) {
 	if s.scriptPos < len(s.script) {
 		a := s.script[s.scriptPos]
@@ -759,6 +799,42 @@ func (s *sim) precond(a Action) error {
 			return fmt.Errorf("a timer would wait for a lock a parked goroutine holds")
 		}
 	case "disarm":
+	case "arm":
+		ok := false
+		for _, site := range allSites {
+			ok = ok || site == a.Site
+		}
+		if !ok {
+			return fmt.Errorf("unknown site %q", a.Site)
+		}
+	case "grant_behind":
+		// the goroutine parked at Site is let run although another parked one
+		// holds the write lock: the one waits for the lock (a wait the bubble
+		// cannot see through: polled), then the holder is let go.  Nothing else
+		// may be about to ask for a lock.
+		if a.Site != "timer" {
+			return fmt.Errorf("grant_behind is for the timer callback only")
+		}
+		holders, first := 0, 0
+		for _, p := range s.parks {
+			switch {
+			case lockedSite(p.site):
+				holders++
+			case p.site == a.Site:
+				first++
+			default:
+				return fmt.Errorf("something else is parked (at %s)", p.site)
+			}
+		}
+		if holders != 1 || first > 1 {
+			return fmt.Errorf("needs exactly one parked holder of the write lock and at most one goroutine parked at %s (have %d, %d)", a.Site, holders, first)
+		}
+		if len(s.och) > 0 {
+			return fmt.Errorf("output is queued behind the holder: it would compete for the lock")
+		}
+		if len(s.srcHeld) > 0 {
+			return fmt.Errorf("insert logging is kept out of lock-order schedules")
+		}
 	case "src_mode":
 		if a.Mode != "ok" && a.Mode != "err" && a.Mode != "empty" {
 			return fmt.Errorf("bad source mode %q", a.Mode)
@@ -802,6 +878,14 @@ func (s *sim) apply(a Action) {
 			case 0x0f:
 				s.ctrlO++
 				s.nontrivial = true
+				if len(s.cfg.Arm) == 0 && s.windowOpen() {
+					s.mu.Lock()
+					later := s.armed["ctrlo"]
+					s.mu.Unlock()
+					if later {
+						s.windowClosedAnyhow() // handled when the simulator lets it: the model cannot follow
+					}
+				}
 				if !s.muted {
 					s.muted, s.last, s.mutedSince, s.announceBy = true, now, now, 0
 					s.probes["mute_cycles"]++
@@ -855,9 +939,26 @@ func (s *sim) apply(a Action) {
 			// the simulator's doing; only "nothing is suppressed without
 			// Ctrl+O" is judged, at the end
 			t.expect = "shown-if-never-muted"
+		case s.windowOpen():
+			// the same, for as long as the window is open.  The one case the model
+			// can follow: this chunk is taken at once and held at "plain-locked",
+			// nothing else is under way
+			t.expect = "shown-if-never-muted"
+			s.mu.Lock()
+			alone := s.armed["plain-locked"] && !s.armed["plain"] && len(s.parks) == 0 && len(s.och) == 0 && s.heldPlainAt < 0
+			s.mu.Unlock()
+			if alone && !s.noJudge {
+				s.heldPlainAt = now
+				s.probes["output_held_with_write_lock"]++
+			} else {
+				s.windowClosedAnyhow()
+			}
+		case s.noJudge:
+			t.expect = "shown-if-never-muted"
 		case s.muted:
 			t.expect = "hidden"
 			s.last = now
+			s.soft = false
 			s.probes["plain_while_muted"]++
 		default:
 			t.expect = "shown"
@@ -876,6 +977,7 @@ func (s *sim) apply(a Action) {
 		time.Sleep(time.Duration(a.Ns))
 		s.modelAdvance(s.now())
 	case "grant":
+		s.windowClosedAnyhow()
 		s.mu.Lock()
 		for i, p := range s.parks {
 			if p.site == a.Site {
@@ -886,10 +988,19 @@ func (s *sim) apply(a Action) {
 		}
 		s.mu.Unlock()
 	case "grant_all":
+		s.windowClosedAnyhow()
 		s.probes["grant_all"]++
 		s.releaseAll()
 	case "disarm":
+		s.windowClosedAnyhow()
 		s.disarm()
+	case "arm":
+		s.mu.Lock()
+		s.armed[a.Site] = true
+		s.mu.Unlock()
+		s.probes["armed_in_run_"+a.Site]++
+	case "grant_behind":
+		s.grantBehind(a, now)
 	case "drain":
 		s.stalled = false
 		s.probes["input_channel_drained"]++
@@ -937,6 +1048,17 @@ func (s *sim) apply(a Action) {
 // modelAdvance: muting ends by itself once no shell output has arrived for the
 // pause interval.
 func (s *sim) modelAdvance(now int64) {
+	if len(s.cfg.Arm) == 0 && s.windowOpen() {
+		// goroutines are held back: the model's clock stands still ("grant_behind"
+		// brings it up to date)
+		return
+	}
+	if s.soft && now >= s.softLo {
+		// the mute may or may not have ended by now, depending on whether the held
+		// chunk counts from when it arrived or from when it was handled
+		s.soft, s.noJudge = false, true
+		s.probes["timing_no_longer_judged"]++
+	}
 	// at the quiescent point of a step that ends exactly at last+pause the
 	// timer has fired: the instant itself already counts as un-muted
 	if s.muted && now >= s.last+pause {
@@ -944,6 +1066,101 @@ func (s *sim) modelAdvance(now int64) {
 		s.unmutedAt = s.last + pause
 		s.announceBy = s.last + pause + slackNs
 		s.probes["unmuted_by_calm"]++
+	}
+}
+
+// grantBehind closes a window: nothing parks from here on; the goroutine parked
+// at a.Site (the un-mute timer's callback) runs until it waits for the write
+// lock, which the goroutine parked at a "-locked" site holds; then that one is
+// let go.  All of it happens at one instant of the fake clock.
+func (s *sim) grantBehind(a Action, now int64) {
+	s.mu.Lock()
+	s.armed = map[string]bool{}
+	var first, holder *ypark
+	var rest []*ypark
+	for _, p := range s.parks {
+		switch {
+		case p.site == a.Site && first == nil:
+			first = p
+		case lockedSite(p.site) && holder == nil:
+			holder = p
+			rest = append(rest, p) // stays on the list while it is held: the watchdog's verdict needs "nothing parked"
+		default:
+			rest = append(rest, p)
+		}
+	}
+	s.parks = rest
+	s.mu.Unlock()
+	if holder == nil {
+		return // precond
+	}
+	what := "output"
+	if holder.site == "logf-locked" {
+		what = "status"
+	}
+	if first != nil {
+		s.probes["timer_fired_while_"+what+"_held_write_lock"]++
+		close(first.ch)
+		simkit.Heartbeat.Add(1)
+		n, ok := simkit.WaitAllowMutex()
+		simkit.Heartbeat.Add(1)
+		if !ok {
+			s.harnessErr = "no quiescence (with a goroutine waiting for the write lock tolerated) within ten seconds"
+		}
+		if n > 0 {
+			s.probes["timer_waited_for_write_lock"]++
+			s.probes["timer_waited_for_write_lock_held_by_"+what]++
+		}
+		s.obs("timer callback let go behind %s: %d wait for the write lock", holder.site, n)
+	} else {
+		s.probes["timer_not_fired_when_lock_released"]++
+		s.obs("no timer callback parked; %s let go", holder.site)
+	}
+	s.mu.Lock()
+	for i, p := range s.parks {
+		if p == holder {
+			s.parks = append(s.parks[:i], s.parks[i+1:]...)
+			break
+		}
+	}
+	others := len(s.parks)
+	s.mu.Unlock()
+	close(holder.ch)
+	if others > 0 {
+		// not enabled by precond; never leave anything parked behind a closed window
+		s.noJudge = true
+		s.releaseAll()
+	}
+	// the model, as of this instant
+	held := s.heldPlainAt
+	s.heldPlainAt = -1
+	if len(s.cfg.Arm) > 0 || s.noJudge {
+		return
+	}
+	if holder.site == "plain-locked" {
+		// the held chunk of shell output is handled now.  Muted: it is dropped and
+		// calm starts again, whether the chunk counts from when it arrived (held)
+		// or from now; both only agree that the mute lasts beyond now if the
+		// chunk arrived less than the pause interval ago
+		if s.muted {
+			if held >= 0 && now < held+pause {
+				s.last, s.soft, s.softLo = now, true, held+pause
+				s.probes["held_output_postponed_unmute"]++
+			} else {
+				s.noJudge = true
+				s.probes["timing_no_longer_judged"]++
+			}
+		}
+		return
+	}
+	// a status line held the lock: nothing about muting changed; a callback that
+	// was due runs now at the earliest
+	if s.muted && first != nil && now >= s.last+pause {
+		s.muted = false
+		s.unmutedAt = now
+		s.announceBy = now + slackNs
+		s.probes["unmuted_by_calm"]++
+		s.probes["unmuted_as_soon_as_lock_free"]++
 	}
 }
 
